@@ -52,7 +52,7 @@ def _run_one(args):
     t0 = time.time()
     try:
         res = unit.run_unit(c, repo_root(), opts={"seed": seed})
-        unit.solve_all(res, budget_s=budget, both=(tier == "thorough"))
+        unit.solve_all(res, budget_s=max(budget, c.opts.get("solve_budget_s", 0)), both=(tier == "thorough"), par=c.opts.get("solve_par", 4))
     except Exception:
         res = unit.UnitResult(f"{key[0]}:{key[1]}")
         res.error = traceback.format_exc()
